@@ -48,29 +48,52 @@ def r1_growth(ctx, f, rep):
               'swap_remove/iter_mut only', construct='inner-mutators',
               facts={k: sorted(v) for k, v in mutators.items()})
     sites = {(b.nname, e['block']) for b, e in pushes}
-    rep.check(len(sites) == 1 and all(b.parent == 'member::Members::apply' for b, e in pushes), 'C09-R1',
-              'member::Members::apply', 'single growth site, inside the fallback closure of Members::apply',
+    APPLY = 'member::Members::apply'
+    rep.check(len(sites) == 1 and all(APPLY in (b.parent, b.nname) for b, e in pushes), 'C09-R1',
+              APPLY, 'single growth site, inside Members::apply (or its fallback closure)',
               construct='growth-site', facts={'sites': sorted(s[0] for s in sites)})
     rep.floor('C09-R1', len(sites), 1, 'growth sites of Members.inner')
-    # the fallback closure is the argument of unwrap_or_else on apply_existing_if(update.clone(), |_| true)
-    ab = f.fn('member::Members::apply')
-    good = False
+    # the push runs only when apply_existing_if(update.clone(), |_| true) returned None: either it sits in the closure
+    # given to unwrap_or_else on that call, or it follows a None test of that call's result on the same path
+    ab = f.fn(APPLY)
+
+    def lookup_ok(p, ae):
+        cond = ae['args'][2]
+        always = False
+        if cond[0] == 'agg' and cond[1] == 'closure':
+            cps = ctx.paths(f, f.fn(cond[2]), 'none')
+            always = len(cps) == 1 and cps[0].ret == ('const', 'bool', 1, 'true')
+        return always and ae['args'][1] == ('param', 0, 2)
+    good = bool(pushes)
+    npush = 0
+    for pb, pe in pushes:
+        if pb.kind == 'Closure':
+            found = False
+            for p in ctx.paths(f, ab, 'none'):
+                calls = {c['id']: c for c in p.calls()}
+                for e in p.calls():
+                    if e['res'] == 'core::option::Option::unwrap_or_else':
+                        recv, clo = e['args'][0], e['args'][1]
+                        if recv[0] == 'call' and calls[recv[1]]['res'] == 'member::Members::apply_existing_if' and \
+                                clo[0] == 'agg' and clo[1] == 'closure' and clo[2] == pb.nname and \
+                                lookup_ok(p, calls[recv[1]]) and p.ret == ('call', e['id']):
+                            found = True
+            good = good and found
+            npush += 1
     for p in ctx.paths(f, ab, 'none'):
         calls = {c['id']: c for c in p.calls()}
-        for e in p.calls():
-            if e['res'] == 'core::option::Option::unwrap_or_else':
-                recv, clo = e['args'][0], e['args'][1]
-                if recv[0] == 'call' and calls[recv[1]]['res'] == 'member::Members::apply_existing_if' and \
-                        clo[0] == 'agg' and clo[1] == 'closure' and pushes and clo[2] == pushes[0][0].nname:
-                    ae = calls[recv[1]]
-                    cond = ae['args'][2]
-                    always = False
-                    if cond[0] == 'agg' and cond[1] == 'closure':
-                        cps = ctx.paths(f, f.fn(cond[2]), 'none')
-                        always = len(cps) == 1 and cps[0].ret == ('const', 'bool', 1, 'true')
-                    good = always and ae['args'][1] == ('param', 0, 2) and p.ret == ('call', e['id'])
-    rep.check(good, 'C09-R1', ab.nname, 'apply = apply_existing_if(update, always-true).unwrap_or_else(register)',
-              construct='apply-shape')
+        lk = [c for c in p.calls() if c['res'] == 'member::Members::apply_existing_if']
+        for i, e in enumerate(p.events):
+            if e['kind'] == 'call' and (e['body'], e['block']) in sites and e['res'].endswith('::push'):
+                npush += 1
+                good = good and len(lk) == 1 and lookup_ok(p, lk[0]) and p.events.index(lk[0]) < i and \
+                    q.option_known(f, p, i, ('call', lk[0]['id'])) == 'None'
+        if p.end == 'return' and lk and q.option_known(f, p, len(p.events), ('call', lk[0]['id'])) == 'Some':
+            # a known address: the summary of apply_existing_if is returned as is and nothing is added
+            good = good and q.some_payload(p, p.ret) == ('call', lk[0]['id']) and \
+                not any(x['res'].endswith('::push') for x in p.calls())
+    rep.check(good and npush >= 1, 'C09-R1', ab.nname, 'apply registers a record only when apply_existing_if(update, always-true) '
+              'returned None, and otherwise returns its summary', construct='apply-shape')
     # apply_existing_if returns None only when the address lookup found nothing
     eb = f.fn('member::Members::apply_existing_if')
     n = 0
@@ -79,10 +102,10 @@ def r1_growth(ctx, f, rep):
             n += 1
             calls = {c['id']: c for c in p.calls()}
             cs = p.conds()
-            good = len(cs) == 1 and cs[0]['expr'][0] == 'discr' and cs[0]['expr'][1][0] == 'call' and \
-                calls[cs[0]['expr'][1][1]]['decl'].endswith('Iterator::find') or \
-                (len(cs) == 1 and calls.get(cs[0]['expr'][1][1], {}).get('res', '').endswith('Iterator>::find'))
-            rep.check(good and q.cond_variants(f, cs[0]) == {'None'}, 'C09-R1', eb.nname,
+            t = q.option_test(f, p, cs[0]) if len(cs) == 1 else None
+            good = t is not None and t[1] == 'None' and t[0][0] == 'call' and t[0][1] in calls and \
+                (calls[t[0][1]]['decl'].endswith('Iterator::find') or calls[t[0][1]]['res'].endswith('Iterator>::find'))
+            rep.check(good, 'C09-R1', eb.nname,
                       'None is returned exactly when the lookup by address finds no record', construct='none-iff-unknown')
     rep.floor('C09-R1', n, 1, 'None paths of apply_existing_if')
     # Members::new(Vec::new())
